@@ -12,7 +12,7 @@ pub fn run(ctx: &Ctx) -> Report {
 	total.rule = "every path text {relative,absolute} x SEG^{<=n} accepted by the reference path DFA; one case = one path with every path query and every interleaving of next/next_back two steps beyond exhaustion; non-trivial = distinct valid path text with at least one segment".into();
 	// (alphabet level, max segments)
 	let plans: Vec<(u8, usize)> = if ctx.quick() { vec![(0, 6), (1, 4)] } else { vec![(0, 8), (1, 5), (2, 4)] };
-	for f in Family::BOTH {
+	for f in Family::active() {
 		let mut vs = Vec::new();
 		total.evaluations += by_family!(f, c12_constants(&mut vs));
 		for v in vs {
